@@ -246,4 +246,7 @@ class C15(Prop):
             sim.fail_post("loop-error", f"loop exception handler called: {sim.loop_errors[:2]}")
 
 
+from sim.prop import with_eager  # noqa: E402
+
+C15.tiers = with_eager(C15.tiers, [('plain', 60000), ('cancel', 24000)])
 PROPS = {"C15": C15()}
